@@ -569,6 +569,24 @@ class CallMixin:
                         obj.slots[n] = wrap_bool(z3.Or(ta, tb))
                     return None
         if isinstance(obj, dict):
+            if attr == "get" and isinstance(args[0], AnyV):
+                # hash(key) first: unhashable containers / bytearrays raise TypeError; then lookup by equality
+                v = args[0]
+                default = args[1] if len(args) > 1 else None
+                if self.path.branch(self.any_is(v, "Container", "Bytes")):
+                    if self.path.choose(2, "unhashable-key") == 1:
+                        self.raise_builtin("TypeError", node)
+                    return default
+                for kk, val in obj.items():
+                    if isinstance(kk, (int, float, str)) or kk is None:
+                        r = self.eq(v, kk)
+                        if self.path.branch(self.truth(r) if not isinstance(r, bool) else r):
+                            return val
+                return default
+            if attr == "get" and (args[0] is None or isinstance(args[0], (bool, float, bytes))):
+                return obj.get(args[0], args[1] if len(args) > 1 else None)
+            if attr == "get" and isinstance(args[0], (list, dict, set, bytearray, PySet)):
+                self.raise_builtin("TypeError", node)  # unhashable key
             if attr == "get":
                 k = self.dict_key(args[0])
                 if k is not None:
